@@ -1,16 +1,17 @@
 """R9 / rule D: make the scope-end drop of listed RAII bindings explicit.
 
-Verus works on HIR/THIR-level text and never sees implicit drops; for the guards whose Drop has an
-effect a property depends on (wait-for edge removal, lock release, metrics recording) the Drop body is
-called explicitly at every exit of the binding's scope.
+Verus never sees implicit drops; for the guards whose Drop has an effect a property depends on
+(wait-for edge removal, lock release, metrics recording) the drop is called explicitly at every exit
+of the binding's scope: before each `return` (and `break`/`continue` that leaves the scope) and after
+the tail expression.  A `?` inside such a scope is reported as unsupported.
+Bindings are `let [mut] NAME = ..;` statements or `if let PAT(.. NAME ..) = .. { body }`.
 """
 from .lex import Code, apply_edits, OPEN
-from .passes import Unsupported, stmt_end, thing_end
+from .passes import Unsupported, thing_end
 from .rules import rewrite
 
 
 def _block_statements(c, ob):
-    """[(start, end_exclusive)] of the statements of block opened at sig index ob."""
     cb = c.close(ob)
     out = []
     k = ob + 1
@@ -26,68 +27,95 @@ def _block_statements(c, ob):
     return out
 
 
+def _scope_edits(c, ob, scan_from, name, dropcall, binder_stmt_start=None):
+    """edits that make the drop of `name` explicit in the block opened at sig index `ob`;
+    exits are searched from sig index `scan_from`."""
+    cb = c.close(ob)
+    stmts = _block_statements(c, ob)
+    edits = []
+    m = scan_from
+    while m < cb:
+        x = c.t(m)
+        if x == "?" and c.kind(m) == "p":
+            raise Unsupported("raii: `?` inside the scope of %s" % name)
+        if x in ("loop", "while", "for") and c.kind(m) == "id" and c.t(m - 1) not in ("<", "impl"):
+            hb = m
+            while c.t(hb) != "{":
+                if c.t(hb) in ("(", "["): hb = c.close(hb)
+                hb += 1
+            he = c.close(hb)
+            for q in range(hb, he):
+                if c.t(q) == "return" and c.kind(q) == "id":
+                    edits.append(_exit_edit(c, q, dropcall))
+                if c.t(q) == "?" and c.kind(q) == "p":
+                    raise Unsupported("raii: `?` inside the scope of %s" % name)
+            m = he + 1
+            continue
+        if c.kind(m) == "id" and x in ("return", "break", "continue"):
+            edits.append(_exit_edit(c, m, dropcall))
+        m += 1
+    if not stmts:
+        edits.append((c.pos(cb), c.pos(cb), dropcall + "\n"))
+        return edits
+    last_a, last_b = stmts[-1]
+    last_is_tail = c.t(last_b - 1) != ";" and last_b == cb and last_a != binder_stmt_start
+    diverges = c.t(last_a) in ("return", "break", "continue")
+    if last_is_tail and not diverges and c.t(last_a) not in ("if", "match", "loop", "while", "for", "{"):
+        tail = c.text[c.pos(last_a):c.pos(cb)].rstrip()
+        edits.append((c.pos(last_a), c.pos(cb),
+                      "let __raii_tail_%s = %s;\n%s\n__raii_tail_%s\n" % (name, tail, dropcall, name)))
+    elif last_is_tail and not diverges:
+        # block-like tail expression: bind its value, drop, yield the value
+        tail = c.text[c.pos(last_a):c.pos(cb)].rstrip()
+        edits.append((c.pos(last_a), c.pos(cb),
+                      "let __raii_tail_%s = %s;\n%s\n__raii_tail_%s\n" % (name, tail, dropcall, name)))
+    elif not diverges:
+        edits.append((c.pos(cb), c.pos(cb), dropcall + "\n"))
+    return edits
+
+
 def rule_raii(text, raii):
     done = set()
 
     def finder(c):
         for k in range(len(c)):
-            if c.t(k) != "let":
-                continue
-            j = k + 1
-            if c.t(j) == "mut": j += 1
-            name = c.t(j)
-            if name not in raii or name in done or c.t(j + 1) not in ("=", ":"):
-                continue
-            # an explicit marker of a binding already processed?
-            ob = c.enclosing_open(k)
-            if ob < 0 or c.t(ob) != "{":
-                raise Unsupported("raii: binding %s not in a block" % name)
-            cb = c.close(ob)
-            stmts = _block_statements(c, ob)
-            idx = [i for i, (a, b) in enumerate(stmts) if a == k]
-            if not idx:
-                raise Unsupported("raii: let %s is not a statement of its block" % name)
-            let_end = stmts[idx[0]][1]
-            dropcall = "%s(%s, w);" % (raii[name], name)
-            edits = []
-            # exits inside the scope
-            loop_depth_marks = []
-            m = let_end
-            while m < cb:
-                x = c.t(m)
-                if x == "?" and c.kind(m) == "p":
-                    raise Unsupported("raii: `?` inside the scope of %s" % name)
-                if x in ("loop", "while", "for") and c.kind(m) == "id":
-                    # skip inner loops for break/continue purposes but still handle `return` inside
-                    hb = m
-                    while c.t(hb) != "{":
-                        if c.t(hb) in ("(", "["): hb = c.close(hb)
-                        hb += 1
-                    he = c.close(hb)
-                    for q in range(hb, he):
-                        if c.t(q) == "return" and c.kind(q) == "id":
-                            edits.append(_exit_edit(c, q, dropcall))
-                        if c.t(q) == "?" and c.kind(q) == "p":
-                            raise Unsupported("raii: `?` inside the scope of %s" % name)
-                    m = he + 1
+            # ---- let [mut] NAME = ...;
+            if c.t(k) == "let" and c.t(k - 1) != "if":
+                j = k + 1
+                if c.t(j) == "mut": j += 1
+                name = c.t(j)
+                if name not in raii or name in done or c.t(j + 1) not in ("=", ":"):
                     continue
-                if c.kind(m) == "id" and x in ("return", "break", "continue"):
-                    edits.append(_exit_edit(c, m, dropcall))
-                m += 1
-            # scope end
-            last_a, last_b = stmts[-1]
-            last_is_tail = c.t(last_b - 1) != ";" and last_b == cb and last_a != k
-            diverges = c.t(last_a) in ("return", "break", "continue")
-            if last_is_tail and not diverges:
-                tail = c.text[c.pos(last_a):c.pos(cb)].rstrip()
-                edits.append((c.pos(last_a), c.pos(cb),
-                              "let __raii_tail_%s = %s;\n%s\n__raii_tail_%s\n" % (name, tail, dropcall, name)))
-            elif not diverges:
-                edits.append((c.pos(cb), c.pos(cb), dropcall + "\n"))
-            done.add(name)
-            # all edits for this binding in one go: apply and return a whole-text replacement
-            new = apply_edits(c.text, edits)
-            return (0, len(c.text), new)
+                ob = c.enclosing_open(k)
+                if ob < 0 or c.t(ob) != "{":
+                    raise Unsupported("raii: binding %s not in a block" % name)
+                stmts = _block_statements(c, ob)
+                idx = [i for i, (a, b) in enumerate(stmts) if a == k]
+                if not idx:
+                    raise Unsupported("raii: let %s is not a statement of its block" % name)
+                let_end = stmts[idx[0]][1]
+                dropcall = "%s(%s, w);" % (raii[name], name)
+                edits = _scope_edits(c, ob, let_end, name, dropcall, binder_stmt_start=k)
+                done.add(name)
+                return (0, len(c.text), apply_edits(c.text, edits))
+            # ---- if let PAT = EXPR { body }
+            if c.t(k) == "if" and c.t(k + 1) == "let":
+                eq = k + 2
+                while c.t(eq) != "=":
+                    if c.t(eq) in OPEN: eq = c.close(eq)
+                    eq += 1
+                names = [c.t(q) for q in range(k + 2, eq) if c.kind(q) == "id" and c.t(q) in raii and ("iflet:" + c.t(q)) not in done]
+                if not names:
+                    continue
+                name = names[0]
+                hb = eq + 1
+                while c.t(hb) != "{":
+                    if c.t(hb) in ("(", "["): hb = c.close(hb)
+                    hb += 1
+                dropcall = "%s(%s, w);" % (raii[name], name)
+                edits = _scope_edits(c, hb, hb + 1, name, dropcall)
+                done.add("iflet:" + name)
+                return (0, len(c.text), apply_edits(c.text, edits))
         return None
     return rewrite(text, finder)
 
@@ -95,7 +123,6 @@ def rule_raii(text, raii):
 def _exit_edit(c, m, dropcall):
     """`return E;` -> `{ let __raii_ret = E; drop; return __raii_ret; }` ; break/continue: drop first."""
     x = c.t(m)
-    # extent of the exit expression: up to ';' or ',' or closing brace at depth 0
     e = m + 1
     while e < len(c) and c.t(e) not in (";", ",", "}"):
         if c.t(e) in OPEN: e = c.close(e)
